@@ -2,6 +2,7 @@
  * does not run again until resumed, runs exactly once per resume, even when
  * the resume comes from another stream the moment BLOCKED is observable; it
  * never runs on two streams at once and its stack context survives. */
+#include "abti.h"
 #include "common.h"
 
 enum { R_EXT, R_PRIMARY, R_ULT_SAME, R_ULT_ES1 };
@@ -180,6 +181,10 @@ static void scenario(int cfg)
     if (C->block == B_EVENTUAL)
         OK(ABT_eventual_create(0, &EV));
 
+    h_watch_pool(p0);
+    h_watch_pool(pa);
+    if (es1 != ABT_XSTREAM_NULL)
+        h_watch_pool(h_main_pool(es1));
     abtmc_window_begin();
     OK(ABT_thread_create(pa, a_fn, NULL, ABT_THREAD_ATTR_NULL, &A));
     ABT_thread rt = ABT_THREAD_NULL;
